@@ -109,7 +109,7 @@ class Case:
         if self.setup_value is not None:
             kinds += ["state", "stateconst"]
         if self.has_bytes:
-            kinds += ["len", "bword"]
+            kinds += ["len", "bword", "bword"]
         k = ch.choose(kinds, lbl + ".k")
         if k == "eq":
             return ("eq", i, w[i])
@@ -569,8 +569,11 @@ class C03Check:
                         descriptor=dict(guards=case.guards, w=[hex(x) for x in case.w], got=wit))
         # --early-exit: the first valid counterexample shuts the executor down, killing solvers that are still printing
         early_exit = ch.chance(0.3, "sw.early")
+        # the size candidates of dynamic parameters are a user-given list in the user's order (--default-bytes-lengths 65,0,32):
+        # the calldata has to be wide enough for the largest candidate wherever it is listed
+        blens = ch.choose([[65, 32, 0], [32, 65, 0], [65, 0, 32], [0, 65, 32], [32, 0, 65]], "sw.blens.order") if ch.chance(0.5, "sw.blens.shuffle") else list(BYTES_LENGTHS)
         args = R.make_args(solver_threads=threads, cache_solver=cache, storage_layout=layout, early_exit=early_exit,
-                           panic_error_codes=set(PANIC_SET), default_bytes_lengths=list(BYTES_LENGTHS))
+                           panic_error_codes=set(PANIC_SET), default_bytes_lengths=blens)
 
         def main():
             ctx = R.make_contract_ctx(args, "T", "test/T.sol", cj, [case.sig], bom)
@@ -683,7 +686,7 @@ class C03Check:
                                    reachable=case.reachable, leaf=case.leaf, other=case.other, tail=case.tail,
                                    witness=[hex(x) for x in case.w], verdict=verdict, faulted=faulted, solver=solver, layout=layout,
                                    cache=cache, threads=threads, unknown_rate=unknown_rate, fault_rate=fault_rate, uid_mode=uid_mode,
-                                   unnamed=case.unnamed,
+                                   unnamed=case.unnamed, bytes_lengths=blens,
                                    queries=[(h["file"], h["kind"], h["truth"]) for h in out.stub.history][:8]))
         if keep_log:
             res["log"] = [("stdout", out.stdout[-1500:]), ("warnings", out.warnings[-10:]), ("code", rt.hex())] + list(out.sim.log[-40:])
